@@ -45,6 +45,8 @@ class Bag(object):
         return ','.join(str(item).replace('*', '**').replace(',', '*,') for item in pk)
     @cut_traceback
     def to_dict(bag):
+        cache = bag.session_cache
+        if cache is not None and cache.is_alive and cache.modified: cache.flush()
         bag.dicts.clear()
         for entity, objects in bag.objects.items():
             for obj in objects:
